@@ -422,3 +422,25 @@ reg("C32", "exploration",
     "and -0 sign loss are accepted in exactly that form and counted. Twelve open known findings (frame child order, default keyframe "
     "dropped, energy sensor element names, settotalmass/inertiagrouprange not written, 6-digit data vectors, fusestatic+frames, ...).",
     "metamorphic round-trip twin comparison with field-table diff")
+
+reg("C50", "exploration",
+    "Every capacity 0..N+2 of every sampled (model, state, visualisation option vector) is executed by mjv_updateScene on a fresh "
+    "scene whose geoms buffer is followed by a canary zone (rel) or is the exact-size allocation of mjv_makeScene (ASan redzone): "
+    "ngeom <= capacity, guard intact, N > capacity implies status != 0 and exactly one 'buffer is full' warning, the truncated scene is "
+    "byte for byte a prefix of the full scene, repeated calls on a fresh and on the same scene are byte-identical, and in the geoms-only "
+    "configuration the mjOBJ_GEOM elements are compared with an independent expectation built from mjModel/mjData (group mask, static "
+    "flag, category mask, effective alpha, type/size mapping, float32 pose, category, segid).",
+    "Alpha-0 geoms are absent by documentation; the category of geoms on jointless children of the world is left open (doc and source "
+    "disagree); plugin visualize callbacks and slider-crank decor are tolerated; infinite planes may be re-centred along in-plane axes. "
+    "mjWARN_VGEOMFULL no longer exists in this tree, the overflow report is status + mju_warning.",
+    "exhaustive capacity sweep with guard-zone / ASan bounds monitoring + reference-model oracle")
+
+reg("C51", "exploration",
+    "The README PID recurrence (kp e + I + kd de/dt, integral clipped to +-imax in force units, setpoint slew-limited around the previous "
+    "limited setpoint, ctrlrange first) is stepped alongside the simulation on observed length/velocity and compared with actuator_force at "
+    "every step; the cable plugin's contribution to qfrc_passive, isolated with a twin model without the plugin at the same state, must "
+    "vanish in the stress-free pose (qpos0, or the straightened pose when flat=true); twin runs with each plugin removed must agree on every "
+    "qpos/qvel/act/plugin_state/qfrc_passive/actuator_force entry outside that plugin's own trees; a subsample runs under ASan.",
+    "Either Euler convention for the integral term is accepted (only one is ever observed, counted); the first step is not slew-limited; "
+    "runs stop at an engine auto-reset. No linked first-party plugin has nstate>0, so the plugin_state comparison is vacuous (said in evidence).",
+    "reference-model oracle stepped alongside the real plugin + twin execution + sanitizer subsample")
